@@ -150,5 +150,8 @@ v("C14", "order-from-map", "value.go", "\tfor _, key := range cur.Order {\n\t\ti
 v("C15", "locals-per-package", "compiler.go", "\t\t\tLocals:   locals,", "\t\t\tLocals:   func() *lookup { _ = locals; return newLookup() }(),", "LOAD-SLOTS:slots compilePkgs")
 v("C19", "recover-shadows-err", "vm.go", "\t\tif r := recover(); r != nil {\n\t\t\terr = vm.btErr(r)\n\t\t}", "\t\tif r := recover(); r != nil {\n\t\t\terr := vm.btErr(r)\n\t\t\t_ = err\n\t\t}", "PAN-CONVERT:convert VM.run")
 
+v("C09", "params-share-slot", "compiler.go", "\t\t\tc.Locals.Shadow(arg.Text) // a slot per parameter, also for repeated blank names", "\t\t\tc.Locals.Index(arg.Text)", "FRM-PARAMSLOT:param slot")
+v("C09", "method-variadic-type-lost", "value.go", "\tm.getFunc().VariadicType = f.VariadicType\n", "", "FRM-METHOD:variadic element type")
+
 json.dump(V, open('/verif/selftest/variants.json', 'w'), indent=1)
 print(len(V), "variants")
